@@ -495,3 +495,6 @@ class Boss:
     S4_closed.upon(send, enter=S4_closed, outputs=[])
     S4_closed.upon(got_code, enter=S4_closed, outputs=[])
     S4_closed.upon(error, enter=S4_closed, outputs=[])
+    # an error (e.g. ServerConnectionError) can close us while the Terminator
+    # is still shutting things down: its completion is then of no interest
+    S4_closed.upon(closed, enter=S4_closed, outputs=[])
